@@ -34,5 +34,10 @@ meta={"property":p,"refactoring":r,"kind":"behaviour-preserving refactoring (the
  "source":"independent sub-agent given only the property text and a scratch worktree",
  "confirmed":{"existing_suite_with_change":rs},
  "checks_run_against_it":[x for x in res.replace("\\n","\n").strip().split("\n") if x]}
+import os
+nf="/verif/seeded/notes.json"
+if os.path.exists(nf):
+    n=json.load(open(nf)).get(f"{p}-{r}")
+    if n: meta["note"]=n
 json.dump(meta,open(f"/verif/seeded/refactors/{p}-{r}/meta.json","w"),indent=1)
 PY
